@@ -36,6 +36,7 @@ EXTRA = {
             ('TraceBtpe', 'TraceBtpe.cfg', 'pd.ndjson', {}, {'pd': ['T', 'k'], 'pdh': ['ap', 'am']}),
             ('TraceBtpe', 'TraceBtpe.cfg', 'rej64.ndjson', {}, {'rej64': ['T', 'x']}),
             ('TraceBtpe', 'TraceBtpe.cfg', 'binv.ndjson', {}, {'binv': ['W1', 'mono']}),
+            ('TraceBtpe', 'TraceBtpe.cfg', 'hin.ndjson', {}, {'hin': ['mono', 'one_word', 'dir']}),
             ('TraceBtpe', 'TraceBtpe.cfg', 'geo.ndjson', {}, {'geot': ['T', 'out_ok'], 'geok': ['k'], 'geopi': ['T'], 'geom': ['T', 'out_ok']}),
             ('TraceRejection', 'TraceRejection.cfg', 'knuth.ndjson', {}, {'knuth32': ['oneword', 'P'], 'knuth64': ['p0', 'witness']})],
     'C06': [('TraceZigAcc', 'TraceZigAcc.cfg', 'zigacc.ndjson', {}, {'wedge': ['T', 'inwedge', 'xq'], 'ntail': ['T'], 'etail': ['cnt']})],
